@@ -49,6 +49,23 @@ def handle (op : String) (j : Json) : Except String Json := do
       | some vs => intList vs
       | none => errEnc
     pure (reply m none)
+  | "column_ints" =>
+    let rows := (← getStrList j "rows").map toB
+    let m := match columnInts rows with
+      | some vs => intList vs
+      | none => errEnc
+    let s := match Base.omap specParse rows with
+      | some vs => if vs.all inInt64 then intList vs else Json.null
+      | none => Json.null
+    pure (reply m (some s))
+  | "parse_missing" =>
+    let rows := (← getStrList j "rows").map toB
+    let miss ← getInt j "missing"
+    let m := match strToIntWithMissing rows miss with
+      | some vs => intList vs
+      | none => errEnc
+    let s := intList (rows.map (fun r => if isMissing r then miss else (specParse r).getD 0))
+    pure (reply m (some s))
   | "fparse" =>
     let rows := (← getStrList j "rows").map toB
     pure (reply (optDecList (rows.map strToFloatRow)) (some (optDecList (rows.map specFloat))))
